@@ -635,7 +635,11 @@ func genCliCase(t *rapid.T) CliCase {
 		case "ch-sid":
 			ch.SessID = pick(t, l+"v", []int{1, 31, 33, 255, 0, 32})
 		case "ch-suites":
-			ch.Suites = pick(t, l+"v", [][]int{{}, {0x00ff}, {0x5600, ch.Suites[0]}, {0x1301}, {0xffff, 0}, {0x0033, 0x0039, 0x009e}, {0xc02b, 0xc02f}, {0x0005}, {0x000a, 0x002f, 0x0035},
+			first := 0x002f
+			if len(ch.Suites) > 0 {
+				first = ch.Suites[0]
+			}
+			ch.Suites = pick(t, l+"v", [][]int{{}, {0x00ff}, {0x5600, first}, {0x1301}, {0xffff, 0}, {0x0033, 0x0039, 0x009e}, {0xc02b, 0xc02f}, {0x0005}, {0x000a, 0x002f, 0x0035},
 				{0x1301, 0x1302, 0x1303, 0xc02f, 0xc02b, 0x009c}})
 		case "ch-comp":
 			ch.Comp = pick(t, l+"v", [][]byte{nil, {1}, {1, 0}, {0, 0, 0}, {64}})
@@ -742,5 +746,5 @@ const cliRule = "a hand-written scripted client drives a real zcrypto server (co
 
 func TestPropScriptedClient(t *testing.T) {
 	kit.Run(t, kit.Spec[CliCase]{ID: "C32", Name: "scripted-client", Rule: cliRule, Gen: genCliCase, Check: checkCliScript,
-		Quick: 1500, Thorough: 9000, Assumptions: commonAssumptions})
+		Quick: 700, Thorough: 6000, Assumptions: commonAssumptions})
 }
